@@ -366,6 +366,17 @@ func evCanon(obj slip.Object) string {
 	return b.String()
 }
 
+// evCanonResult prints the primary value of the result of a program.
+func evCanonResult(obj slip.Object) string {
+	if vs, ok := obj.(slip.Values); ok {
+		if len(vs) == 0 {
+			return "nil"
+		}
+		obj = vs[0]
+	}
+	return evCanon(obj)
+}
+
 func evCanonTo(b *strings.Builder, obj slip.Object) {
 	switch tv := obj.(type) {
 	case nil:
@@ -397,11 +408,16 @@ func evCanonTo(b *strings.Builder, obj slip.Object) {
 		}
 		b.WriteByte(')')
 	case slip.Values:
-		if len(tv) == 0 {
-			b.WriteString("nil")
-		} else {
-			evCanonTo(b, tv[0])
+		// Only the RESULT of a program may be a multiple-values object (evCanonResult takes its primary value).
+		// Anywhere else — an element of a list, the argument a function received (vtr) — a values object is not
+		// a Lisp datum: a variable or a parameter was bound to the unreduced values of a form. It is printed as
+		// what it is, so that it can never pass for its primary value.
+		b.WriteString("#<values")
+		for _, e := range tv {
+			b.WriteByte(' ')
+			evCanonTo(b, e)
 		}
+		b.WriteString(">")
 	case *slip.Lambda, *slip.FuncInfo:
 		b.WriteString("#<fn>")
 	case *gi.Mutex:
@@ -472,7 +488,7 @@ func evRunImplLocal(cs evCase) evObs {
 	obs.locks = lb.String()
 	switch {
 	case o.Ok:
-		obs.kind, obs.value = "val", evCanon(o.Value)
+		obs.kind, obs.value = "val", evCanonResult(o.Value)
 	case evTrips > 0:
 		obs.kind = "timeout"
 	case o.GoFault || o.Class == "go-panic" || o.Class == "go-error":
